@@ -681,8 +681,8 @@ def cmp_fld(name, fi, fm, bnd, dis):
 
 
 def case_bound(case, obs):
-    if case["kind"] in ("hand",) or case.get("geom", {}).get("regime") == "exact":
-        return Fraction(0)
+    if case["kind"] == "hand" or (case.get("geom", {}).get("regime") == "exact" and case["kind"] != "uneven"):
+        return Fraction(0)      # (a shifted coordinate makes the arithmetic inexact even on dyadic geometry)
     r = obs.get("field", {}).get("mesh", {}).get("region")
     if r is None:
         return Fraction(0)
